@@ -502,8 +502,12 @@ def main(tier):
         times = sorted((results[h["name"]].time or 0.0) for h in hs if h["name"] in results)
         refusal_overflow = sorted({h["method"] for h in hs if h["kind"] in ANY_STYLE and h["name"] in results
                                    and any("overflow" in c[2] for c in results[h["name"]].failed())})
+        # an obligation that fails exactly as an *open known finding* lists is reported as KNOWN-FINDING and is not
+        # part of what this run claims proven: it is excluded from `obligations` and named separately
+        known_hs = sorted(h["name"] for h in failing) if (failing and not rep.new and not not_reproduced) else []
         cov = {
-            "obligations": len(hs),
+            "obligations": len(hs) - len(known_hs),
+            "obligations_excluded_as_open_known_findings": known_hs,
             "discharged": discharged,
             "checker_cmd": "cargo kani --lib --exact --harness harnesses::<h> " + " ".join(KANI_FLAGS) + "  (CBMC 6.11, cadical; unwinding assertions on)",
             "trusted_base": TRUSTED,
